@@ -63,7 +63,7 @@ def ser_ee(lin, circ, calls):
             t += ["M", str(c["m"])]
         elif op == "W":
             t += ["W", str(c["n"])]
-        elif op in ("C", "V"):
+        elif op in ("C", "V", "K", "Q", "T"):
             t += [op]
         else:
             N = len(c["ps"])
@@ -88,7 +88,7 @@ def parse_ee(line):
             calls.append({"op": "M", "m": int(t[p])}); p += 1
         elif op == "W":
             calls.append({"op": "W", "n": int(t[p])}); p += 1
-        elif op in ("C", "V"):
+        elif op in ("C", "V", "K", "Q", "T"):
             calls.append({"op": op})
         else:
             N = int(t[p]); p += 1
@@ -224,10 +224,13 @@ def eval_ee(line, hout, dout, wtab, stats, notes):
     if len(hc) != len(calls) or len(dc) != len(calls):
         return [("corr", "output-shape", "outputs do not have one entry per call")]
     probs = []
-    window, method, H = 5, 7, []        # the check's own record: window, method, base estimates newest first
-    Htol = []                            # per stored base estimate: per-row tolerance of that estimate (None: unknown)
+    # the check's own record, per object: window, method, base estimates newest first, their per-row tolerances,
+    # and whether the object is in the moved-from state (outside the property: differences there are notes)
+    rec = [{"window": 5, "method": 7, "H": [], "Htol": [], "mf": False} for _ in range(2)]
+    cur = 0
     tie = True                           # model still comparable on this sequence
     for idx, c in enumerate(calls):
+        window, method, H, Htol = rec[cur]["window"], rec[cur]["method"], rec[cur]["H"], rec[cur]["Htol"]
         ht, dt = hc[idx], dc[idx]
         for t in dt:
             if t.startswith("t:"):
@@ -236,15 +239,36 @@ def eval_ee(line, hout, dout, wtab, stats, notes):
         hcore = [t for t in ht if not t.startswith("b:")]
         base = [unhex(t[2:]) for t in ht if t.startswith("b:")]
         op = c["op"]
-        flag, win = int(hcore[1]), int(hcore[2])
-        est = [unhex(x) for x in hcore[3:]]
+        flag, win, meth_seen = int(hcore[1]), int(hcore[2]), int(hcore[3])
+        est = [unhex(x) for x in hcore[4:]]
         where = "call %d (%s)" % (idx, op)
         explained = None                 # reason why a model deviation here is not an alarm
         rows = None
         base_tol = None
         tie_factor = 1.0
+        # ---- hand-over: the destination continues as the original, the source is moved-from
+        if op in ("K", "Q", "T"):
+            if op == "T":
+                cur = 1 - cur
+            else:
+                rec[1 - cur] = {"window": window, "method": method, "H": list(H), "Htol": list(Htol), "mf": rec[cur]["mf"]}
+                rec[cur] = {"window": 0, "method": 7, "H": [], "Htol": [], "mf": True}
+            want_w, want_m = rec[cur]["window"], rec[cur]["method"]
+            if (win, meth_seen) != (want_w, want_m):
+                if rec[cur]["mf"]:
+                    notes["moved-from-state"] = notes.get("moved-from-state", 0) + 1
+                    rec[cur]["window"], rec[cur]["method"] = win, meth_seen
+                else:
+                    probs.append(("prop", "hand-over-loses-configuration", "%s: the object now current shows window %d, method %s; handed over were window %d, method %s" % (where, win, METHODS[meth_seen], want_w, METHODS[want_m])))
+            if tie and (hcore[:4] != dcore[:4]) and not rec[cur]["mf"] and not [p for p in probs if p[2].startswith(where)]:
+                probs.append(("corr", "model-vs-impl", "%s: implementation %s, model %s" % (where, hcore[:4], dcore[:4])))
+                tie = False
+            continue
+        mf = rec[cur]["mf"]
         # ---- window clauses
-        if not 2 <= win <= 30:
+        if mf and win == 0 and op != "W":
+            pass                          # documented moved-from state
+        elif not 2 <= win <= 30:
             probs.append(("prop", "window-out-of-range", "%s: window is %d, outside [2, 30]" % (where, win)))
         if op == "W":
             n = c["n"]
@@ -261,6 +285,8 @@ def eval_ee(line, hout, dout, wtab, stats, notes):
         elif win != window:
             probs.append(("prop", "window-changed", "%s: window changed from %d to %d without a window request" % (where, window, win)))
         window = win
+        if meth_seen != (c["m"] if op == "M" else method):
+            probs.append(("prop", "method-changed", "%s: getInfo reports method %s in use, expected %s" % (where, METHODS[meth_seen], METHODS[c["m"] if op == "M" else method])))
         if op == "M":
             method = c["m"]
             explained = "return-flag"
@@ -322,6 +348,9 @@ def eval_ee(line, hout, dout, wtab, stats, notes):
                             explained = "weights-of-weighted-or-exponential-variant"
                         elif stat != 0:
                             explained = "tie-break-among-equal-maxima"
+        rec[cur]["window"], rec[cur]["method"], rec[cur]["H"], rec[cur]["Htol"] = window, method, H, Htol
+        if mf and explained is None:
+            explained = "moved-from-state"
         # ---- tie to the model
         if tie:
             stats["calls_compared_with_model"] += 1
@@ -332,8 +361,10 @@ def eval_ee(line, hout, dout, wtab, stats, notes):
                 bad = "flag"
             elif hcore[2] != dcore[2]:
                 bad = "window"
+            elif hcore[3] != dcore[3]:
+                bad = "method"
             else:
-                mest = [unhex(x) for x in dcore[3:]]
+                mest = [unhex(x) for x in dcore[4:]]
                 for r, (x, y) in enumerate(zip(est, mest)):
                     if hexd(x) == hexd(y):
                         continue
@@ -393,8 +424,8 @@ def eval_probe(fam, window, hout, dout, wtab, stats):
         if ht[0] != "X":
             continue
         j += 1
-        est = [unhex(x) for x in ht[3:3 + PROBE_DIM]]
-        mest = [unhex(x) for x in dt[3:3 + PROBE_DIM]]
+        est = [unhex(x) for x in ht[4:4 + PROBE_DIM]]
+        mest = [unhex(x) for x in dt[4:4 + PROBE_DIM]]
         k = min(j + 1, window)
         where = "%s variant, window %d, %d stored" % (name, window, k)
         if int(ht[1]) != 1 or len(est) != PROBE_DIM:
@@ -442,59 +473,86 @@ def hb_grid_case(w0, fill, w1):
     return hb_line(ops)
 
 
-def eval_hb(line, hout, dout, stats):
-    """the check's own reading of the buffer clauses (a bounded newest-first list), compared with the
-    implementation; then implementation vs model, token by token."""
+def eval_hb(line, hout, dout, stats, notes):
+    """the check's own reading of the buffer clauses (a bounded newest-first list per object), compared with
+    the implementation; then implementation vs model, token by token.  Two objects (slots): K / Q hand the
+    current one over to the other slot (move construction / move assignment), QS is a self move-assignment,
+    T switches.  What a moved-from object does is outside the property: differences there are notes."""
     if not hout or hout.startswith(("crash", "throw", "bad-")):
         return [("prop", "impl-crash", "HistoryBuffer failed on a valid operation sequence: %s" % hout[:80])]
     t = line.split()
     dim, n = int(t[1]), int(t[2])
     p = 3
-    window, H = 5, []
+    st = [{"window": 5, "H": [], "mf": False} for _ in range(2)]
+    cur = 0
     probs = []
     hc = split_calls(hout)
     if len(hc) != n:
         return [("corr", "output-shape", "outputs do not have one entry per operation")]
+
+    mf_dev = [False]
+
+    def report(kind, what):
+        if st[cur]["mf"]:
+            notes["moved-from-state"] = notes.get("moved-from-state", 0) + 1
+            mf_dev[0] = True
+        else:
+            probs.append(("prop", kind, what))
+
     for k in range(n):
         op = t[p]; p += 1
         ht = hc[k]
         where = "operation %d (%s)" % (k, op)
+        o = st[cur]
         if op == "A":
             x = t[p:p + dim]; p += dim
-            H = ([x] + H)[:window]
+            o["H"] = ([x] + o["H"])[:o["window"]]
         elif op in ("S", "D", "I"):
             if op == "S":
                 w = int(t[p]); p += 1
+            elif op == "D":
+                w = o["window"] - 1 if o["window"] > 0 else 4294967295
             else:
-                w = window - 1 if op == "D" else window + 1
-            if w != window:
-                window = clamp(w)
-            H = H[:window]
+                w = o["window"] + 1
+            if w != o["window"]:
+                o["window"] = clamp(w)
+                if o["window"] >= 2 and not o["H"]:
+                    o["mf"] = o["mf"] and dim != 0   # a moved-from buffer of a 0-dimensional state is fully usable again
+            o["H"] = o["H"][:o["window"]]
         elif op == "C":
-            H = []
+            o["H"] = []
+        elif op == "T":
+            cur = 1 - cur
+        elif op in ("K", "Q"):
+            st[1 - cur] = {"window": o["window"], "H": list(o["H"]), "mf": o["mf"]}
+            st[cur] = {"window": 0, "H": [], "mf": True}
+        o = st[cur]
         if op == "G":
             cols = int(ht[1])
             got = [ht[2 + j * dim:2 + (j + 1) * dim] for j in range(cols)]
-            if got != H:
-                kind = "cleared-not-empty" if not H else ("history-too-long" if cols > len(H) else "history-not-most-recent")
-                probs.append(("prop", kind, "%s: buffer holds %d elements %s; the %d most recent are %s" % (
-                    where, cols, [unhex(g[0]) for g in got][:8], len(H), [unhex(g[0]) for g in H][:8])))
-                H = got
-            if len(got) > window:
-                probs.append(("prop", "history-exceeds-window", "%s: %d elements stored with window %d" % (where, len(got), window)))
-            if len(H) == window:
+            if got != o["H"]:
+                kind = "cleared-not-empty" if not o["H"] else ("history-too-long" if cols > len(o["H"]) else "history-not-most-recent")
+                report(kind, "%s: buffer holds %d elements %s; the %d most recent are %s" % (
+                    where, cols, [unhex(g[0]) for g in got if g][:8], len(o["H"]), [unhex(g[0]) for g in o["H"] if g][:8]))
+                o["H"] = got
+            if len(got) > o["window"]:
+                report("history-exceeds-window", "%s: %d elements stored with window %d" % (where, len(got), o["window"]))
+            if len(o["H"]) == o["window"]:
                 stats["hb_full_reads"] += 1
         else:
             win = int(ht[2])
-            if not 2 <= win <= 30:
-                probs.append(("prop", "window-out-of-range", "%s: window is %d, outside [2, 30]" % (where, win)))
-            elif win != window:
-                probs.append(("prop", "window-not-clamped", "%s: window is %d, expected %d" % (where, win, window)))
-                window = win
-                H = H[:window]
+            if win != o["window"]:
+                if not 2 <= win <= 30:
+                    report("window-out-of-range", "%s: window is %d, outside [2, 30]" % (where, win))
+                elif op in ("K", "Q", "QS", "T"):
+                    report("hand-over-loses-configuration", "%s: window is %d after the hand-over, expected %d" % (where, win, o["window"]))
+                else:
+                    report("window-not-clamped", "%s: window is %d, expected %d" % (where, win, o["window"]))
+                o["window"] = win
+                o["H"] = o["H"][:win]
     def mask(out):      # return flags are not part of the property
         return [c if c[0] == "G" else [c[0], c[2]] for c in split_calls(out)]
-    if not probs and mask(hout) != mask(dout):
+    if not probs and mask(hout) != mask(dout) and not mf_dev[0]:
         probs.append(("corr", "model-vs-impl", "HistoryBuffer and HistBuf disagree: %s / %s" % (hout[:200], dout[:200])))
     return probs
 
@@ -504,20 +562,31 @@ def eval_hb(line, hout, dout, stats):
 def gen_particles(g, lin, circ, N):
     r = g.r
     style = r.choice(["dyadic", "full", "full"])
+    scale = r.choice([1.0] * 6 + [1e-10, 1e-5, 1e5, 1e10])      # magnitude of the linear components
     centre = r.uniform(-PI, PI)
     wild = r.random() < 0.25
+    antipodal = r.random() < 0.08                                # small resultants (1e-5 .. 1e-2 of the total weight)
+    neardup = N >= 2 and r.random() < 0.12                       # consecutive particles equal up to a tiny perturbation
     ps, seen = [], set()
+    tries = 0
     while len(ps) < N:
-        p = [(g.dyadic(-4, 4, 4) if style == "dyadic" else g.full(-4, 4)) for _ in range(lin)]
-        for _ in range(circ):
-            u = r.random()
-            if wild and u < 0.35:
-                a = r.choice([7.0, -7.0, 100.0, -40.5, 3.5, -3.5, 2 * PI, 4.0])
-            elif u < 0.05:
-                a = r.choice([PI, -PI])
-            else:
-                a = wrap(centre + r.uniform(-1.2, 1.2))
-            p.append(a)
+        tries += 1
+        if neardup and ps and r.random() < 0.6 and tries < 200:
+            q = ps[-1]
+            p = [x * (1 + r.choice([0.0, 1e-13, -1e-12, 1e-9])) + r.choice([0.0, 1e-300]) for x in q]
+        else:
+            p = [scale * (g.dyadic(-4, 4, 4) if style == "dyadic" else g.full(-4, 4)) for _ in range(lin)]
+            for _ in range(circ):
+                u = r.random()
+                if wild and u < 0.35:
+                    a = r.choice([7.0, -7.0, 100.0, -40.5, 3.5, -3.5, 2 * PI, 4.0])
+                elif u < 0.05:
+                    a = r.choice([PI, -PI])
+                elif antipodal:
+                    a = wrap(centre + (PI if len(ps) % 2 else 0.0) + r.uniform(-1, 1) * 10.0 ** r.uniform(-5, -2))
+                else:
+                    a = wrap(centre + r.uniform(-1.2, 1.2))
+                p.append(a)
         key = tuple(hexd(x) for x in p)
         if key in seen:
             continue
@@ -545,6 +614,9 @@ def gen_logweights(g, N, ties=True):
         m = max(lw)
         lw[i] = m
         lw[j] = m                      # exact tie for the maximum (first index wins in the code)
+    if N >= 8 and r.random() < 0.5:
+        j = lw.index(max(lw))            # the maximum in the last position (beyond any 4/8/16-wide batch)
+        lw[j], lw[N - 1] = lw[N - 1], lw[j]
     if style == "zero" and N >= 2:
         lw[r.randrange(N)] = -math.inf  # a particle of weight zero
         if all(x == -math.inf for x in lw):
@@ -554,10 +626,11 @@ def gen_logweights(g, N, ties=True):
 
 def gen_extract(g, lin, circ, five):
     r = g.r
-    N = 1 if r.random() < 0.15 else r.randint(2, 6)
+    u = r.random()
+    N = 1 if u < 0.15 else (2 if u < 0.30 else (r.choice([8, 16, 17, 32, 33]) if u < 0.36 else r.randint(3, 6)))
     c = {"op": "Y" if five else "X", "ps": gen_particles(g, lin, circ, N), "ws": gen_logweights(g, N)}
     if five:
-        K = N if r.random() < 0.6 else r.randint(1, 6)
+        K = N if r.random() < 0.6 else r.choice([1, 2, 3, 4, 5, 6, 16, 17])
         c["pw"] = gen_logweights(g, K, ties=False)
         c["lik"] = [0.0 if r.random() < 0.2 else (g.dyadic(0, 4, 3) if r.random() < 0.4 else 10.0 ** r.uniform(-12, 2)) for _ in range(N)]
         c["tp"] = [[0.0 if r.random() < 0.2 else (g.dyadic(0, 2, 3) if r.random() < 0.4 else r.uniform(0, 3)) for _ in range(K)] for _ in range(N)]
@@ -567,37 +640,74 @@ def gen_extract(g, lin, circ, five):
             c["tp"][j] = list(c["tp"][i])
         if r.random() < 0.05:
             c["lik"] = [0.0] * N
+        elif N >= 8 and r.random() < 0.5:
+            c["lik"][N - 1] = 1e3        # the best score in the last position
+            c["tp"][N - 1] = [1.0 + x for x in c["tp"][N - 1]]
     return c
 
 
 def gen_sequence(g, maxlen):
     r = g.r
     while True:
-        lin, circ = r.randint(0, 3), r.randint(0, 2)
+        lin, circ = r.choice([0, 1, 2, 3, 3, 6, 16, 17]) if r.random() < 0.3 else r.randint(0, 3), r.randint(0, 3 if r.random() < 0.2 else 2)
         if lin + circ > 0:
             break
     n = r.randint(maxlen // 3, maxlen)
-    window = 5
-    calls = []
     sticky = r.random() < 0.5           # long runs under one windowed method fill the window
-    for _ in range(n):
+    # generator-side record per object: window, method, moved-from?
+    ob = [{"w": 5, "m": 7, "mf": False}, {"w": 5, "m": 7, "mf": False}]
+    cur = 0
+    calls = []
+    if sticky:
+        ob[0]["m"] = r.choice([1, 2, 3, 5, 6, 7, 9, 10, 11])
+        wn = r.choice([2, 3, 4, 7])
+        ob[0]["w"] = wn
+        calls += [{"op": "M", "m": ob[0]["m"]}, {"op": "W", "n": wn}]
+    last_extract = None
+    while len(calls) < n:
+        o = ob[cur]
         u = r.random()
+        if o["mf"]:
+            # a moved-from object: un-windowed methods only (its history buffer is unusable until it is assigned into)
+            if u < 0.3 or o["m"] % 4 != 0:
+                o["m"] = r.choice([0, 4, 8])
+                calls.append({"op": "M", "m": o["m"]})
+            elif u < 0.4:
+                calls.append({"op": "C"})
+            elif u < 0.6:
+                calls.append({"op": "T"}); cur = 1 - cur
+            else:
+                calls.append(gen_extract(g, lin, circ, r.random() < 0.5))
+            continue
         if u < (0.06 if sticky else 0.15):
-            calls.append({"op": "M", "m": r.randrange(12)})
+            o["m"] = r.randrange(12)
+            calls.append({"op": "M", "m": o["m"]})
         elif u < (0.12 if sticky else 0.27):
-            nn = r.choice([-3, 0, 1, 2, 3, 4, 5, 6, 10, 29, 30, 31, 40, window, window - 1, window + 1, r.randint(1, 34)])
+            nn = r.choice([-3, 0, 1, 2, 3, 4, 5, 6, 10, 29, 30, 31, 40, o["w"], o["w"] - 1, o["w"] + 1, r.randint(1, 34)])
             calls.append({"op": "W", "n": nn})
-            if nn > 0:
-                window = clamp(nn)
+            if r.random() < 0.3 and nn > 0:
+                # there and back again: nets to nothing unless the content was cut
+                calls.append({"op": "W", "n": o["w"]})
+            elif nn > 0:
+                o["w"] = clamp(nn)
         elif u < (0.14 if sticky else 0.32):
             calls.append({"op": "C"})
-        elif u < (0.16 if sticky else 0.35):
+        elif u < (0.16 if sticky else 0.34):
             calls.append({"op": "V"})
+        elif u < (0.19 if sticky else 0.38):
+            op = r.choice(["K", "Q"])
+            calls.append({"op": op})
+            ob[1 - cur] = dict(o)
+            ob[cur] = {"w": 0, "m": 7, "mf": True}
+            if r.random() < 0.7:
+                calls.append({"op": "T"}); cur = 1 - cur
+        elif u < (0.21 if sticky else 0.40) and not ob[1 - cur]["mf"]:
+            calls.append({"op": "T"}); cur = 1 - cur
+        elif last_extract is not None and r.random() < 0.08:
+            calls.append(dict(last_extract, op=r.choice(["X", "Y"]) if "pw" in last_extract else "X"))   # the same arguments again
         else:
-            calls.append(gen_extract(g, lin, circ, r.random() < 0.5))
-    if sticky:
-        calls.insert(0, {"op": "M", "m": r.choice([1, 2, 3, 5, 6, 7, 9, 10, 11])})
-        calls.insert(1, {"op": "W", "n": r.choice([2, 3, 4, 7])})
+            last_extract = gen_extract(g, lin, circ, r.random() < 0.5)
+            calls.append(last_extract)
     return ser_ee(lin, circ, calls)
 
 
@@ -624,25 +734,80 @@ def witness_cases():
 
 def hb_random(g, n):
     r = g.r
+    dim = 0 if r.random() < 0.15 else 1
     ops = []
     k = 0
+    ob = [{"w": 5, "n": 0, "mf": False}, {"w": 5, "n": 0, "mf": False}]
+    cur = 0
+
+    def setw(o, w):
+        if w != o["w"]:
+            o["w"] = clamp(w)
+        o["n"] = min(o["n"], o["w"])
+
     for _ in range(n):
+        o = ob[cur]
+        locked = o["mf"] and dim != 0     # a moved-from buffer of a non-empty state cannot be read back once it stores something
         u = r.random()
-        if u < 0.55:
+        if u < 0.50:
+            if locked:
+                continue                  # whether a moved-from buffer stores anything is unspecified
             k += 1
-            ops.append(("A", el(k)))
-        elif u < 0.70:
-            ops.append(("S", str(r.choice([0, 1, 2, 3, 5, 29, 30, 31, 40, 4294967295, 2147483648, r.randint(0, 40)]))))
-        elif u < 0.78:
-            ops.append(("D",))
-        elif u < 0.86:
-            ops.append(("I",))
+            ops.append(("A",) + ((el(k),) if dim else ()))
+            o["n"] = min(o["n"] + 1, o["w"])
+        elif u < 0.62:
+            w = r.choice([0, 1, 2, 3, 5, 29, 30, 31, 40, 41, 64, 255, 256, 65536, 4294967295, 2147483648, r.randint(0, 40)])
+            ops.append(("S", str(w))); setw(o, w)
+        elif u < 0.69:
+            ops.append(("D",)); setw(o, o["w"] - 1 if o["w"] > 0 else 4294967295)
+        elif u < 0.76:
+            ops.append(("I",)); setw(o, o["w"] + 1)
+        elif u < 0.80:
+            ops.append(("C",)); o["n"] = 0
+        elif u < 0.85:
+            ops.append(("T",)); cur = 1 - cur
         elif u < 0.90:
-            ops.append(("C",))
+            if o["mf"]:
+                continue
+            ops.append((r.choice(["K", "Q"]),))
+            ob[1 - cur] = dict(o)
+            ob[cur] = {"w": 0, "n": 0, "mf": True}
+        elif u < 0.92:
+            ops.append(("QS",))
         else:
+            if locked and o["n"] > 0:
+                continue
             ops.append(("G",))
-    ops.append(("G",))
-    return hb_line(ops)
+    for _ in range(2):
+        o = ob[cur]
+        if not (o["mf"] and dim != 0 and o["n"] > 0):
+            ops.append(("G",))
+        ops.append(("T",)); cur = 1 - cur
+    return hb_line(ops, dim)
+
+
+# ----------------------------------------------------------------------------- plain (non-sanitizer) build
+
+def build_plain():
+    """the harness compiled -O2 -DNDEBUG without sanitizers, directly against the three anchored source files
+    (address reuse, vectorised paths and assertion-free behaviour differ from the ASan build)"""
+    import os
+    src = vlib.REPO / "src" / "BayesFilters"
+    files = [src / "src" / f for f in ("EstimatesExtraction.cpp", "HistoryBuffer.cpp", "directional_statistics.cpp")]
+    hsrc = vlib.VERIF / "harness" / "h_extract.cpp"
+    outdir = vlib.BUILD / "plain-c17"
+    outdir.mkdir(parents=True, exist_ok=True)
+    binary = outdir / "h_extract_plain"
+    deps = files + [hsrc, vlib.VERIF / "harness" / "common.hpp"] + list((src / "include" / "BayesFilters").glob("*.h"))
+    with vlib.locked("plain-c17"):
+        stale = not binary.exists() or any(os.stat(str(d)).st_mtime > binary.stat().st_mtime for d in deps)
+        if stale:
+            cmd = ["g++", "-std=c++11", "-O2", "-DNDEBUG", "-DBFL_VERIF", "-I", str(src / "include"), "-I", vlib.EIGEN_INC,
+                   "-I", str(vlib.VERIF / "harness"), str(hsrc)] + [str(f) for f in files] + ["-lpthread", "-o", str(binary)]
+            rc, o, e = vlib.sh(cmd)
+            if rc != 0:
+                raise vlib.BuildError("plain harness failed to compile:\n%s" % e[-4000:])
+    return binary
 
 
 # ----------------------------------------------------------------------------- run
@@ -682,6 +847,10 @@ def run(ctx):
             for w1 in w1s(w0, fill):
                 cases.append((hb_grid_case(w0, fill, w1), "hb", {"src": "grid"}))
                 ngrid += 1
+    for w0 in (41, 64, 255, 256, 65536, 4294967295):        # beyond the grid bound
+        for fill in (0, 1, 2, 29, 30, 31, 40):
+            for w1 in (0, 2, 29, 30, 31, w0):
+                cases.append((hb_grid_case(w0, fill, w1), "hb", {"src": "grid-beyond"}))
     cases.append((hb_line([("A", el(i + 1)) for i in range(7)] + [("G",)] + [("D",), ("G",)] * 6 + [("I",), ("A", el(50)), ("G",)] * 32), "hb", {"src": "dec-inc"}))
     cases.append(("hb 3 9 A %s A %s G S 2 A %s G S 1 C G" % (" ".join(el(i) for i in (1, 2, 3)), " ".join(el(i) for i in (4, 5, 6)), " ".join(el(i) for i in (7, 8, 9))), "hb", {"src": "dim3"}))
     gb = ctx.gen("hb")
@@ -710,15 +879,41 @@ def run(ctx):
     def record(problems, line, h):
         for kind, key, what in problems:
             (prop_bad if kind == "prop" else corr_bad).append((key, what, line, h))
-    # probes first: they give the implementation's own weight vectors
-    for (line, kind, meta), h, d in zip(cases, hout, dout):
-        if kind == "probe":
-            record(eval_probe(meta["fam"], meta["window"], h, d, wtab, stats), line, h)
-    for (line, kind, meta), h, d in zip(cases, hout, dout):
-        if kind == "hb":
-            record(eval_hb(line, h, d, stats), line, h)
-        elif kind == "ee":
-            record(eval_ee(line, h, d, wtab, stats, notes), line, h)
+    def guarded(f, line, h):
+        # an output the evaluation cannot digest (unexpected shape, non-numeric token) is a failure of the
+        # implementation on that input, never a crash of the check and never a pass
+        try:
+            record(f(), line, h)
+        except Exception as ex:
+            record([("prop", "output-malformed", "the output of the implementation could not be evaluated (%s: %s)" % (type(ex).__name__, str(ex)[:200]))], line, h)
+    def evaluate(outs, wt):
+        # probes first: they give the implementation's own weight vectors
+        for (line, kind, meta), h, d in zip(cases, outs, dout):
+            if kind == "probe":
+                guarded(lambda: eval_probe(meta["fam"], meta["window"], h, d, wt, stats), line, h)
+        for (line, kind, meta), h, d in zip(cases, outs, dout):
+            if kind == "hb":
+                guarded(lambda: eval_hb(line, h, d, stats, notes), line, h)
+            elif kind == "ee":
+                guarded(lambda: eval_ee(line, h, d, wt, stats, notes), line, h)
+    evaluate(hout, wtab)
+    # the same cases through a plain -O2 -DNDEBUG build without sanitizers (a subset in the quick tier)
+    plain = build_plain()
+    sub = [i for i, c in enumerate(cases) if c[1] != "hb" or c[2].get("src") != "grid" or i % (7 if quick else 1) == 0]
+    pout, plogs = vlib.run_harness(plain, [lines[i] for i in sub])
+    full = list(hout)
+    for i, o in zip(sub, pout):
+        full[i] = o
+    nb = (len(prop_bad), len(corr_bad))
+    saved_cases = cases
+    cases = [cases[i] for i in sub]
+    dout_all, dout = dout, [dout[i] for i in sub]
+    evaluate(pout, {})
+    cases, dout = saved_cases, dout_all
+    stats["plain_build_cases"] = len(sub)
+    stats["plain_build_new_failures"] = (len(prop_bad) - nb[0]) + (len(corr_bad) - nb[1])
+    logs = dict(logs)
+    logs.update({("plain", k): v for k, v in plogs.items()})
 
     seen = set()
     for key, what, line, h in prop_bad:
@@ -755,6 +950,7 @@ def run(ctx):
         "calls_compared_with_model": stats["calls_compared_with_model"],
         "model_vs_impl_disagreements": len(corr_bad), "property_failures_on_impl": len(prop_bad),
         "model_deviation_notes": notes,
+        "plain_build": {"cases": stats.get("plain_build_cases"), "new_failures": stats.get("plain_build_new_failures")},
         "numeric": {k: stats.get(k) for k in ("max_model_err_over_tol", "max_model_err_at", "probe_weights_vs_model_max_rel", "ill_conditioned_rows_skipped", "weight_vectors_probed", "hb_full_reads")},
         "sanitizer_crashes": len(logs),
     })
